@@ -32,12 +32,16 @@ class Gen:
         self.cases = []
         self.n = 0
 
-    def case(self, suite, cfg, lines, ns=1, nsess=1, srv=0, trig=5000):
+    def case(self, suite, cfg, lines, ns=1, nsess=1, srv=0, trig=5000, ka=0, until_ms=None):
         self.n += 1
         hdr = 'X id=%d ato=%d rf=%d mr=%d ns=%d nsess=%d tol=%d until=%d' % (
             self.n, cfg['ato'], cfg['rf'], cfg['mr'], ns, nsess, cfg['tol'], until(cfg))
+        if until_ms:
+            hdr = hdr.replace('until=%d' % until(cfg), 'until=%d' % until_ms)
         if srv:
             hdr += ' srv=1 trig=%d' % trig
+        if ka:
+            hdr += ' ka=%d' % ka
         self.cases.append((self.n, suite, [hdr] + lines + ['E']))
 
 
@@ -255,6 +259,40 @@ def suite_nstart(g, tier, rnd):
             g.case('nstart.sessions', cfg, ls, ns=ns, nsess=2)
 
 
+def suite_samemid(g, tier, rnd):
+    """Message ids are per session: two (three) sessions of one context with Confirmables in flight under the SAME message id - the
+    context keeps them in one send queue.  One of them is answered late (first copy unanswered), the others at once."""
+    cfg = dict(ato=2000, rf=1000, mr=2, tol=16)
+    for ns in (1, 2):
+        for first in (0, 1):                       # which session's message is queued first (head of the send queue)
+            for kind in ('ack', 'rst', 'pig'):
+                for nsess in (2, 3):
+                    a, b = (0, 1) if first == 0 else (1, 0)
+                    ls = ['A 0 %d CON 70 m=4660' % a, 'A 5 %d CON 71 m=4660' % b, 'A 6 %d CON 72' % a, 'A 7 %d CON 73' % b,
+                          'A 8 %d CON 76 m=4661' % a, 'A 9 %d CON 77 m=4661' % b,
+                          'R 70 0 none', 'R 70 1 %s+30' % kind, 'R 71 0 %s+20' % kind, 'R 72 0 ack+10', 'R 73 0 ack+10',
+                          'R 76 0 ack+700', 'R 77 0 none', 'R 77 1 none', 'R 77 2 none']
+                    if nsess == 3:
+                        ls += ['A 3 2 CON 74 m=4660', 'R 74 0 none', 'R 74 1 none', 'R 74 2 none', 'A 4 2 CON 75', 'R 75 0 pig+5']
+                    g.case('nstart.samemid', cfg, ls, ns=ns, nsess=nsess)
+
+
+def suite_keepalive(g, tier, rnd):
+    """Keepalive pings (Empty Confirmable messages of the library's own) take part in NSTART: submissions before, while and after a ping is
+    in flight; the peer's Reset (the pong) ends the ping and frees its slot."""
+    cfg = dict(ato=2000, rf=1000, mr=2, tol=16)
+    for ns in (1, 2):
+        for ka in (1, 3):
+            K = ka * 1000
+            for t2 in (K - 5, K, K + 1, K + 2, K + 50, 2 * K + 100, 3 * K + 7):
+                ls = ['A 0 0 CON 80', 'R 80 0 ack+10', 'A %d 0 CON 81' % t2, 'A %d 0 CON 82' % (t2 + 1), 'A %d 0 NON 83' % (t2 + 2),
+                      'R 81 0 pig+20', 'R 82 0 ack+30', 'R 83 0 sepnon+5']
+                g.case('nstart.keepalive', cfg, ls, ns=ns, ka=ka, until_ms=5 * K + 20000)
+            ls = ['A 0 0 CON 80', 'A 0 1 CON 84', 'R 80 0 ack+10', 'R 84 0 none', 'R 84 1 ack+10', 'A %d 0 CON 81' % (2 * K + 30), 'A %d 1 CON 85' % (2 * K + 31),
+                  'R 81 0 pig+20', 'R 85 0 rst+20']
+            g.case('nstart.keepalive', cfg, ls, ns=ns, nsess=2, ka=ka, until_ms=5 * K + 20000)
+
+
 def suite_random(g, tier, rnd, n):
     for _ in range(n):
         cfg = rnd.choice(CFGS[:5] + CFGS[6:8])
@@ -308,6 +346,10 @@ def run(pid, tier):
                 must_fire=MUST_FIRE, workers=V.NCPU, timeout=3000, xmx='24g')
     if mcst['violated']:
         raise V.Infra('the closed model violates its own invariants (specification error):\n' + mcst['out'][-3000:])
+    # keepalive pings competing with an application message for the NSTART slot
+    pg = V.mc('MC_Reliability', 'MC_Reliability_ping.cfg', must_fire=['APing', 'ASend', 'ARetransmit', 'AGiveUp'], workers=8, timeout=900, xmx='12g')
+    if pg['violated']:
+        raise V.Infra('the closed model with keepalive pings violates its own invariants (specification error):\n' + pg['out'][-3000:])
     # the receiver's memory as libcoap has it (one message id per session and type): the model finds the double conclusion of KF_C07_OLD_DUPLICATE
     neg = V.tlc('MC_Reliability', 'MC_Reliability_onedeep.cfg', workers=8, deque=False, timeout=900, xmx='12g')
     if 'Invariant ConcludeOnceI is violated' not in neg['out']:
@@ -318,6 +360,8 @@ def run(pid, tier):
     suite_exch(g, tier, rnd)
     suite_async(g, tier, rnd)
     suite_nstart(g, tier, rnd)
+    suite_samemid(g, tier, rnd)
+    suite_keepalive(g, tier, rnd)
     suite_random(g, tier, rnd, 1500 if tier == 'quick' else 60000)
     nchunk = V.NCPU
     chunks = [[] for _ in range(nchunk)]
